@@ -231,10 +231,16 @@ def generate(rng, tier):
     stemdir_mode = None
     if "stemdir" in feats:
         # inline modules below a root that relies on the fallback are a gray zone of the heuristic: not generated
-        stemdir_mode = rng.choice(["nested", "fallback"]) if "inline" not in feats else "nested"
+        stemdir_mode = rng.choice(["nested", "fallback", "file"]) if "inline" not in feats else rng.choice(["nested", "nested", "file"])
         m.feats.add("stemdir-" + stemdir_mode)
         if stemdir_mode == "nested":
             childdir = os.path.join(rootdir, stem)
+        elif stemdir_mode == "file":
+            # something that is not a directory carries the root's stem name (the executable `main` left next to
+            # main.rs): the root stays an ordinary root, inline modules included
+            m.files[os.path.join(rootdir, stem)] = "\x7fELF not a directory\n"
+            m.status[os.path.join(rootdir, stem)] = "X"
+            m.why[os.path.join(rootdir, stem)] = "not a source file (shares the root's stem)"
         else:
             m.files[os.path.join(rootdir, stem, "unrelated.txt")] = "not rust\n"
     root_status = "E"
